@@ -282,6 +282,7 @@ def monitor_trace(t, P):
     taking = set()
     is_h2 = t.get('kind') == 'h2'   # task level: the label's task is not the one that makes the calls
     at_call = {}          # task -> (oid, name of the step whose outcome it is waiting for)
+    zero_decided = {}     # zero-wait get -> (closed, permits, step) when its try_acquire ran
     failed_step = {}      # oid -> name of the verification step that failed (C04)
     expect_res = {}       # task -> (result code, why, name) after a failing create / post_create hook
     for i, (l, d) in enumerate(zip(t['labels'], P)):
@@ -477,6 +478,21 @@ def monitor_trace(t, P):
                 fail('C10', i, 'NoRuntimeSpecified although the pool has a runtime (task %d)' % tt)
             if w_ == 1 and c in (3, 4):
                 fail('C10', i, 'get with a zero wait timeout is parked waiting for a slot (task %d)' % tt)
+            # a zero wait timeout is decided by one try_acquire: what the semaphore looked like at that step
+            if not h2 and w_ == 1 and l[0] == 1 and l[1] == tt and i > 0 and tt < len(P[i - 1]['tasks']) \
+                    and (P[i - 1]['tasks'][tt] == 2 or 90 <= P[i - 1]['tasks'][tt] <= 98) and c in (10, 11) \
+                    and tt not in zero_decided and (r_ == 0):
+                zero_decided[tt] = (P[i - 1]['closed'], P[i - 1]['permits'], i)
+            if not h2 and w_ == 1 and c in (101, 106) and tt in zero_decided:
+                cl, pm, at = zero_decided.pop(tt)
+                if c == 101 and cl:
+                    fail('C10', i, 'zero wait timeout: task %d answered Timeout(Wait) although the pool was closed when '
+                                   'its try_acquire ran (step %d)' % (tt, at))
+                if c == 101 and not cl and pm > 0:
+                    fail('C10', i, 'zero wait timeout: task %d answered Timeout(Wait) while %d permits were free (step %d)'
+                         % (tt, pm, at))
+                if c == 106 and not cl:
+                    fail('C10', i, 'zero wait timeout: task %d answered Closed on an open pool (step %d)' % (tt, at))
             if not h2 and c >= 100:
                 if r_ != 0 and c != 107:
                     fail('C10', i, 'recycle timeout without runtime: task %d ended with %d, not NoRuntimeSpecified' % (tt, c - 100))
